@@ -675,6 +675,17 @@ impl Kanata {
         }
 
         *MAPPED_KEYS.lock() = cfg.mapped_keys;
+        // State of the replaced layout that would go on producing output, or that names its keys.
+        self.scroll_state = None;
+        self.hscroll_state = None;
+        self.move_mouse_state_vertical = None;
+        self.move_mouse_state_horizontal = None;
+        self.move_mouse_speed_modifiers.clear();
+        self.caps_word = None;
+        self.unmodded_keys.clear();
+        self.unshifted_keys.clear();
+        self.waiting_for_idle.clear();
+        self.vkeys_pending_release.clear();
         self.loaded_cfg_idx = self.cur_cfg_idx;
         log::info!("Live reload successful");
         #[cfg(feature = "tcp_server")]
@@ -797,7 +808,16 @@ impl Kanata {
         self.check_handle_layer_change(tx);
 
         if self.live_reload_requested
-            && ((self.prev_keys.is_empty() && self.cur_keys.is_empty())
+            && ((self.prev_keys.is_empty()
+                && self.cur_keys.is_empty()
+                // A held key whose action is not a key code (a mouse button, scrolling, mouse
+                // movement) is undone by the release of its state in the layout, which a reload
+                // replaces.
+                && self.scroll_state.is_none()
+                && self.hscroll_state.is_none()
+                && self.move_mouse_state_vertical.is_none()
+                && self.move_mouse_state_horizontal.is_none()
+                && !(self.layout.b().states.iter()).any(|s| matches!(s, State::Custom { .. })))
                 || self.ticks_since_idle > 1000)
         {
             // Note regarding the ticks_since_idle check above:
